@@ -368,6 +368,40 @@ fn run_case(c: &Case) -> Outcome {
             let pkg = run.pkg.clone();
             let agg = move |sh: &BTreeMap<Id<C>, SignatureShare<C>>, cd: CheaterDetection| fc::aggregate_custom(&pkg, sh, &pkp, cd);
             super::c04::check_modes::<C>(&mut o, &tag, &ctx, &s, &run.sig, &errs, &agg, &bad, run.pkp_used.verifying_key(), &m);
+            // the crate's own entry points (aggregate / aggregate_with_tweak) behave like FirstCheater
+            {
+                let r = match root.bytes() {
+                    None => tr::aggregate(&run.pkg, &bad, &st.grp.pkp),
+                    Some(rb) => tr::aggregate_with_tweak(&run.pkg, &bad, &st.grp.pkp, rb.as_deref()),
+                };
+                let mut total = zero::<C>();
+                for e in &errs {
+                    total = total + *e;
+                }
+                let mut wrong: Vec<Id<C>> = s.iter().zip(&errs).filter(|(_, e)| **e != zero::<C>()).map(|(i, _)| *i).collect();
+                sort_ids_numeric::<C>(&mut wrong);
+                o.count("culprits_checked", 1);
+                match r {
+                    Ok(sig) => {
+                        if total != zero::<C>() {
+                            o.fail(format!("{tag}/tweaked-aggregate-released-despite-wrong-shares"), ctx.clone());
+                        } else if sig != run.sig {
+                            o.fail(format!("{tag}/tweaked-aggregate-differs"), ctx.clone());
+                        }
+                    }
+                    Err(e) => {
+                        let got: Vec<String> = e.culprits().iter().map(|i| id_hex::<C>(i)).collect();
+                        if total == zero::<C>() {
+                            o.fail(format!("{tag}/tweaked-aggregate-rejected-valid-sum"), format!("{ctx}: {e:?}"));
+                        } else if got != vec![id_hex::<C>(&wrong[0])] {
+                            o.fail(
+                                format!("{tag}/tweaked-aggregate-wrong-culprit"),
+                                format!("{ctx}: aggregate{} named {:?}, expected exactly the lowest wrong signer {}", if root.bytes().is_some() { "_with_tweak" } else { "" }, e.culprits().iter().map(|i| id_short::<C>(i)).collect::<Vec<_>>(), id_short::<C>(&wrong[0])),
+                            );
+                        }
+                    }
+                }
+            }
             // stand-alone share verification agrees with e_i == 0
             for (i, id) in s.iter().enumerate() {
                 let vs = run.pkp_used.verifying_shares()[id];
